@@ -1216,6 +1216,6 @@ func UnsignedUnits(t *testing.T) []Unit {
 // NopDeadliner never expires anything.
 type NopDeadliner struct{ Ch chan core.Duty }
 
-func NewNopDeadliner() NopDeadliner               { return NopDeadliner{Ch: make(chan core.Duty)} }
+func NewNopDeadliner() NopDeadliner                    { return NopDeadliner{Ch: make(chan core.Duty)} }
 func (NopDeadliner) Add(core.Duty) core.DeadlineStatus { return core.DeadlineScheduled }
-func (d NopDeadliner) C() <-chan core.Duty        { return d.Ch }
+func (d NopDeadliner) C() <-chan core.Duty             { return d.Ch }
